@@ -104,6 +104,7 @@ fn replay_one(out: &mut Out, op: &str, a: &[Vec<u8>]) {
         "langid" => out.case(op, &refs, || langid::langid(a0)),
         "li_canonicalize" => out.case(op, &refs, || langid::li_canonicalize(a0)),
         "li_roundtrip" => out.case(op, &refs, || langid::li_roundtrip(a0)),
+        "li_iter" => out.case(op, &refs, || langid::li_iter(a0, a1 == b"1")),
         "li_from_parts" => out.case(op, &refs, || langid::li_from_parts(&refs)),
         "li_into_parts" => out.case(op, &refs, || langid::li_into_parts(a0)),
         "li_matches" => out.case(op, &refs, || langid::li_matches(a0, a1, a2 == b"1", refs.get(3).copied().unwrap_or(&[]) == b"1")),
@@ -118,6 +119,8 @@ fn replay_one(out: &mut Out, op: &str, a: &[Vec<u8>]) {
         "ext_type" => out.case(op, &refs, || locale::ext_type(a0)),
         "both" => out.case(op, &refs, || locale::both(a0)),
         "loc_conv" => out.case(op, &refs, || locale::loc_conv(a0)),
+        "loc_prefix" => out.case(op, &refs, || locale::loc_prefix(a0)),
+        "loc_built" => out.case(op, &refs, || locale::loc_built(a0)),
         "loc_into_parts" => out.case(op, &refs, || locale::loc_into_parts(a0)),
         "loc_matches" => out.case(op, &refs, || locale::loc_matches(a0, a1, a2 == b"1", refs.get(3).copied().unwrap_or(&[]) == b"1")),
         "loc_cmp" => out.case(op, &refs, || locale::loc_cmp(a0, a1)),
